@@ -213,13 +213,18 @@ let () =
                     Printf.sprintf "%s:%s:%s[%s]" (string_of_z p.Records.pr_addr) (string_of_z p.Records.pr_full_size)
                       (string_of_z p.Records.pr_cases) (String.concat "," (List.map mr p.Records.pr_methods)))
                     (Records.pics_info im))) in
-           print_string (Printf.sprintf "OK %s %s %s %s %d %s | %s | %s | %s\n"
+           let fuel = ImageSem.max_depth ms in
+           let counts = String.concat " " (List.mapi (fun i (m : Generator.coq_method) ->
+               Printf.sprintf "%s:%s:%s" (string_of_z m.Generator.m_addr)
+                 (string_of_z (ImageSem.count_method cfg ms fuel (nat_of_int i)))
+                 (string_of_z (ImageSem.need_method cfg ms fuel (nat_of_int i)))) ms) in
+           print_string (Printf.sprintf "OK %s %s %s %s %d %s | %s | %s | %s | %s\n"
                            (nonempty (words im.Generator.im_int)) (nonempty (words im.Generator.im_jit))
                            (nonempty (bytes im.Generator.im_data)) (nonempty (bytes im.Generator.im_ss))
                            (List.length left) (if ImageSem.cfg_ok cfg then "1" else "0")
                            (String.concat " " (List.map mrec ms))
                            (String.concat " " (List.map erec im.Generator.im_elements))
-                           recs))
+                           recs counts))
       | _ -> print_string "BAD\n")
     done
   with End_of_file -> ()
